@@ -61,6 +61,10 @@ def run_ops(ops):
             elif kind == 'ignores':
                 nbd.set_notebook_diff_ignores({k: (v if not isinstance(v, list) else tuple(v)) for k, v in op[1].items()})
                 out.append('cfg')
+            elif kind == 'ignores_iter':
+                # the key collections handed over as one-shot iterables (a generator, map(...), a dict view): accepted or refused is the code's choice
+                nbd.set_notebook_diff_ignores({k: ((x for x in v) if isinstance(v, list) else v) for k, v in op[1].items()})
+                out.append('cfg')
             elif kind == 'reset':
                 nbd.reset_notebook_differ()
                 out.append('cfg')
